@@ -164,6 +164,22 @@ def partitions(tier, seed):
             else:
                 parts.append(_part(m, strlen, 480))
     parts += _lenprefix_parts(tier)
+    parts.append(Part(
+        name='key_samples_queue_declare', params=[('ch', 'int'), ('n', 'int'), ('durable', 'bool')],
+        pre=['0 <= ch <= 65535', '-2**63 <= n < 2**63'],
+        body='def body(ch, n, durable):\n'
+             '    ok = True\n'
+             '    for key in ("\\u00e9" * 65, "\\u20ac" * 85, "\\U0001f600" * 63, "a" * 128):\n'
+             '        tbl = hx.table([(key, n), ("z" + key[1:], [n])])\n'
+             '        m = commands.Queue.Declare(0, "q", False, durable, False, False, False, tbl)\n'
+             '        data = hx.fix(frame.marshal(m, ch))\n'
+             '        c, chan, f = frame.unmarshal(data)\n'
+             '        ok = ok and c == len(data) and chan == ch and f.durable == durable and len(f.arguments) == 2\n'
+             '        ok = ok and f.arguments[key] == n and f.arguments["z" + key[1:]] == [n]\n'
+             '    return ok\n',
+        prelude=common.PRELUDE, timeout=200, family='rt_method_lenprefix',
+        bound='Queue.Declare.arguments with field names of <= 128 characters and up to 255 UTF-8 bytes',
+        rep={'ch': 1, 'n': -129, 'durable': True}))
     # vacuity twin: same harness with the assertion negated must be refuted
     m = spec.BY_NAME['Basic.Nack']
     params, pre, ctor, checks, rep = common.method_params(m, 1)
